@@ -307,11 +307,44 @@ def rule_r3(ctx) -> RuleResult:
 def rule_r4(ctx) -> RuleResult:
     rr = RuleResult("C15.R4", "preprocess_text: nowiki pairs, then <nowiki/>, then closed comments with the preceding newline", min_instances=5)
     fn = ctx.fn("core.Wtp.preprocess_text")
+    # the chain of substitutions applied to the text, in the order in which they run: successive `text = re.sub(p, r, text)`
+    # statements and/or nested calls `re.sub(p2, r2, re.sub(p1, r1, text))` (innermost first)
+    class _S:
+        def __init__(self, call, lineno):
+            self.value, self.lineno = call, lineno
+
+    def chain(e, lineno) -> list:
+        if isinstance(e, ast.Call) and unparse(e.func) == "re.sub" and len(e.args) == 3 and isinstance(e.args[0], ast.Constant):
+            return chain(e.args[2], lineno) + [_S(e, lineno)]
+        return []
+
     subs = []
     for st in fn.body:
-        if isinstance(st, ast.Assign) and unparse(st.targets[0]) == "text" and isinstance(st.value, ast.Call) \
-                and unparse(st.value.func) == "re.sub" and len(st.value.args) == 3 and isinstance(st.value.args[0], ast.Constant):
-            subs.append(st)
+        if isinstance(st, ast.Assign) and unparse(st.targets[0]) == "text":
+            subs.extend(chain(st.value, st.lineno))
+        elif isinstance(st, ast.Return) and st.value is not None:
+            subs.extend(chain(st.value, st.lineno))
+    if not subs:
+        raise AnalysisError("preprocess_text: no re.sub(<constant pattern>, ., text) step recognised")
+
+    def produces_n_cookie(repl) -> bool:
+        """the replacement callable saves the matched body as an N cookie: a nested function, a method of the context or a
+        lambda whose body calls _save_value("N", ...)"""
+        target = None
+        if isinstance(repl, ast.Lambda):
+            target = repl
+        elif isinstance(repl, ast.Name):
+            target = next((n for n in ast.walk(fn) if isinstance(n, ast.FunctionDef) and n.name == repl.id), None)
+        elif isinstance(repl, ast.Attribute) and isinstance(repl.value, ast.Name) and repl.value.id == "self":
+            for cand in ("core.Wtp." + repl.attr, "core.Wtp.preprocess_text." + repl.attr):
+                if ctx.index.has_func(cand):
+                    target = ctx.index.func(cand)
+                    break
+        if target is None:
+            return False
+        return any(isinstance(c, ast.Call) and unparse(c.func).endswith("._save_value") and c.args and isinstance(c.args[0], ast.Constant)
+                   and c.args[0].value == "N" for c in ast.walk(target))
+
     kinds = []
     for st in subs:
         pat = st.value.args[0].value
@@ -324,7 +357,7 @@ def rule_r4(ctx) -> RuleResult:
         low = pat.lower()
         if "nowiki" in low and "</nowiki" in low:
             lazy = any(op is sre_c.SUBPATTERN and any(o2 is sre_c.MIN_REPEAT for o2, _ in av[3]) for op, av in tree)
-            ok = bool(fl & re.DOTALL) and bool(fl & re.IGNORECASE) and lazy and unparse(repl) == "_nowiki_sub_fn"
+            ok = bool(fl & re.DOTALL) and bool(fl & re.IGNORECASE) and lazy and produces_n_cookie(repl)
             kinds.append("pair")
             (rr.ok if ok else lambda *a, **k: None)("core.Wtp.preprocess_text", "nowiki pair pattern lazy/DOTALL/IGNORECASE -> _nowiki_sub_fn")
             if not ok:
@@ -354,7 +387,7 @@ def rule_r4(ctx) -> RuleResult:
         rr.bad(Finding("C15.R4", X.CORE, "core.Wtp.preprocess_text", "order " + ",".join(kinds),
                        "nowiki bodies must be saved before comments are removed (a comment inside <nowiki> is content) and before <nowiki/>", fn.lineno))
     rets = [n for n in fn.body if isinstance(n, ast.Return)]
-    if rets and unparse(rets[-1].value) == "text":
+    if rets and (unparse(rets[-1].value) == "text" or chain(rets[-1].value, 0)):
         rr.ok("core.Wtp.preprocess_text", "returns text")
     return rr
 
